@@ -53,6 +53,108 @@ type known struct {
 // instrumentation overlay (scheduler yield points at synchronisation sites).
 var overlayProps = map[string]bool{"C18": true}
 
+// raceProps lists the properties with a race sub-check (package racecheck).
+var raceProps = map[string]bool{"C18": true}
+
+// racePhase builds the race binary against /repo (no overlay) and runs it on
+// all workers for the given number of seconds.  A report of the race detector
+// is a violation; it is identified by the seed and run index, and replayed by
+// re-running that run (a race is a property of the real scheduler, so the
+// replay is not schedule-exact).
+func racePhase(prop, tier string, seed uint64, workers, secs int, ks []known) ([]string, map[string]any) {
+	dir := filepath.Join(root, ".build", prop)
+	bin := filepath.Join(dir, "race.test")
+	cmd := exec.Command("go1.26.8", "test", "-race", "-c", "-o", bin, "./racecheck")
+	cmd.Dir = filepath.Join(root, "sim")
+	env := os.Environ()
+	env = append(env, "GOFLAGS=-mod=mod", "GOPROXY=off", "GOTOOLCHAIN=local", "GOSUMDB=off")
+	cmd.Env = env
+	if out, err := cmd.CombinedOutput(); err != nil {
+		fatal2("building the race sub-check failed (exit 2, not a violation): %v\n%s", err, out)
+	}
+	type res struct {
+		code   int
+		output string
+		sum    map[string]any
+	}
+	results := make([]res, workers)
+	var wg sync.WaitGroup
+	work := filepath.Join(dir, "racework")
+	os.RemoveAll(work)
+	os.MkdirAll(work, 0o755)
+	for k := 0; k < workers; k++ {
+		wg.Add(1)
+		go func(k int) {
+			defer wg.Done()
+			out := filepath.Join(work, fmt.Sprintf("r%d.json", k))
+			c := exec.Command(bin, "-test.run", "^TestRaceWorker$", "-test.timeout", "0")
+			c.Env = append(os.Environ(), "VSIM_OUT="+out, "VSIM_SEED="+fmt.Sprint(seed), "VSIM_WORKER="+fmt.Sprint(k), "VSIM_WORKERS="+fmt.Sprint(workers), "VSIM_SECS="+fmt.Sprint(secs), "GORACE=halt_on_error=1")
+			var sb strings.Builder
+			c.Stdout, c.Stderr = &sb, &sb
+			err := c.Run()
+			r := res{output: sb.String()}
+			if err != nil {
+				r.code = 1
+			}
+			if b, e2 := os.ReadFile(out); e2 == nil {
+				json.Unmarshal(b, &r.sum)
+			}
+			if b, e2 := os.ReadFile(out + ".progress"); e2 == nil && r.sum == nil {
+				r.sum = map[string]any{"last_run": strings.TrimSpace(string(b))}
+			}
+			results[k] = r
+		}(k)
+	}
+	wg.Wait()
+	runs, ops := 0.0, 0.0
+	var lines []string
+	reported := map[string]bool{}
+	for k, r := range results {
+		if r.sum != nil {
+			if v, ok := r.sum["runs"].(float64); ok {
+				runs += v
+			}
+			if v, ok := r.sum["ops"].(float64); ok {
+				ops += v
+			}
+		}
+		if r.code == 0 {
+			continue
+		}
+		class := "race-subcheck-failure"
+		frame := "?"
+		if strings.Contains(r.output, "DATA RACE") {
+			class = "data-race"
+			for _, l := range strings.Split(r.output, "\n") {
+				l = strings.TrimSpace(l)
+				if strings.HasPrefix(l, "seehuhn.de/go/") {
+					if i := strings.LastIndex(l, "("); i > 0 {
+						l = l[:i]
+					}
+					frame = l
+					break
+				}
+			}
+		}
+		v := core.Violation{Class: class, Attrs: map[string]string{"frame": frame}, Msg: tail(r.output, 6000)}
+		if reported[v.Key()] {
+			continue
+		}
+		reported[v.Key()] = true
+		if matchKnown(ks, prop, &v) != nil {
+			continue
+		}
+		rf := &core.ReplayFile{Property: prop, Tier: tier, Seed: seed, Run: k, Harness: core.HarnessVersion, Violation: v,
+			Comment: fmt.Sprintf("race sub-check, worker %d of %d, last run %v; re-run with: VSIM_OUT=/tmp/o VSIM_SEED=%d VSIM_WORKER=%d VSIM_WORKERS=%d VSIM_SECS=%d %s -test.run TestRaceWorker", k, workers, r.sum["last_run"], seed, k, workers, secs, bin)}
+		path := writeReplay(rf, class)
+		fmt.Printf("violation class=%s frame=%s (race sub-check, worker %d)\n", class, frame, k)
+		lines = append(lines, fmt.Sprintf("VIOLATION property=%s replay=%s", prop, path))
+	}
+	info := map[string]any{"runs": int(runs), "operations": int(ops), "seconds": secs, "workers": workers,
+		"note": "uninstrumented library, real goroutines, go test -race; a detector report is a true race but is reproduced by re-running the seed, not by a schedule"}
+	return lines, info
+}
+
 func describe(bin, prop string) *propInfo {
 	out := filepath.Join(filepath.Dir(bin), "describe.json")
 	code, output := runWorker(bin, []string{"VSIM_OUT=" + out, "VSIM_DESCRIBE=" + prop}, time.Minute)
@@ -458,6 +560,22 @@ func main() {
 		}
 	}
 
+	// race sub-check (C18): the same kinds of workload with real goroutines
+	// and the uninstrumented library under the race detector
+	raceInfo := map[string]any{}
+	if raceProps[*prop] {
+		rs := 20
+		if *tier == "thorough" {
+			rs = 240
+		}
+		vio, info := racePhase(*prop, *tier, seed, *workers, rs, ks)
+		raceInfo = info
+		for _, line := range vio {
+			violations++
+			violLines = append(violLines, line)
+		}
+	}
+
 	wall := time.Since(start).Seconds()
 	skipped := 0
 	for _, v := range total.Skipped {
@@ -515,6 +633,7 @@ func main() {
 			"components_real":     info.Real,
 			"components_stub":     info.Stub,
 			"known_findings_seen": knownIDs,
+			"race_subcheck":       raceInfo,
 		},
 		"diagnostics": map[string]any{"max_run_ms": total.MaxRunMs, "slow_runs": total.SlowRuns, "unreproducible": unrepro, "build_s": buildS},
 		"assumptions": info.Assumptions,
